@@ -248,6 +248,19 @@ func gasScenarios(u *universe, mkWorld func() *hWorld, sizes []int) []*gasScenar
 		w = fresh()
 		mustOK(w.tx(U[0], U[0], "ESDTNFTTransfer", setupGas, sft, be(1), be(5), U[1]), "nft setup")
 		add("ESDTNFTTransfer/same-shard-user(destination already holds)", w, w.mkCall(0, "ESDTNFTTransfer", U[0], U[0], [][]byte{sft, be(1), be(7), U[1]}, 0))
+		// the destination's holding grows past a byte boundary (255 + 1): the stored entry is longer than the one that is sent
+		w = fresh()
+		mustOK(w.tx(U[0], U[0], "ESDTNFTAddQuantity", setupGas, sft, be(1), be(1000)), "nft setup")
+		mustOK(w.tx(U[0], U[0], "ESDTNFTTransfer", setupGas, sft, be(1), be(255), U[1]), "nft setup")
+		add("ESDTNFTTransfer/same-shard-user(destination holding grows a byte)", w, w.mkCall(0, "ESDTNFTTransfer", U[0], U[0], [][]byte{sft, be(1), be(1), U[1]}, 0))
+		w = fresh()
+		mustOK(w.tx(U[0], U[0], "ESDTNFTAddQuantity", setupGas, sft, be(1), be(1000)), "nft setup")
+		mustOK(w.tx(U[0], U[0], "ESDTNFTTransfer", setupGas, sft, be(1), be(255), K[0], []byte("x")), "nft setup")
+		add("ESDTNFTTransfer/same-shard-contract-call(destination holding grows a byte, forwards)", w, w.mkCall(0, "ESDTNFTTransfer", U[0], U[0], [][]byte{sft, be(1), be(1), K[0], []byte("deposit")}, 0))
+		w = fresh()
+		mustOK(w.tx(U[0], U[0], "ESDTNFTAddQuantity", setupGas, sft, be(1), be(1000)), "nft setup")
+		mustOK(w.tx(U[0], U[0], "ESDTNFTTransfer", setupGas, sft, be(1), be(255), U[1]), "nft setup")
+		add("MultiESDTNFTTransfer/same-shard(destination holding grows a byte)", w, w.mkCall(0, "MultiESDTNFTTransfer", U[0], U[0], [][]byte{U[1], be(1), sft, be(1), be(1)}, 0))
 		w = fresh()
 		add("ESDTNFTTransfer/same-shard-contract-call(forwards)", w, w.mkCall(0, "ESDTNFTTransfer", U[0], U[0], [][]byte{sft, be(1), be(5), K[0], []byte("deposit"), {9}}, 0))
 		w = fresh()
@@ -427,6 +440,56 @@ func (c *ctx) sweepGas(u *universe, gas map[string]map[string]uint64, sizes []in
 	}
 }
 
+// denseGas: every scenario again with (a) EVERY gas value in a window below and just above the learned charge (a guard that looks at a
+// smaller amount than what is subtracted afterwards wraps only inside such a window), and (b) asynchronous call type with gas locked for the
+// callback {1, the charge, all the gas, more than the gas} (forwarding paths subtract the locked gas).  Judged by the inequality only; a
+// sample of the calls is re-evaluated by the model.
+func (c *ctx) denseGas(u *universe, gas map[string]map[string]uint64, sizes []int, tag string) {
+	for _, sc := range gasScenarios(u, stdPopulated(u, gas), sizes) {
+		name := tag + sc.Name
+		learn := c.runOn(sc, learnGas, false)
+		if learn.Status != 0 || learn.Out == nil {
+			continue
+		}
+		charge := new(big.Int).Sub(new(big.Int).SetUint64(learnGas), gasOut(learn.Out)).Uint64()
+		check := func(call *callSpec, g uint64, emit bool, what string) {
+			sc2 := &gasScenario{Name: sc.Name, W: sc.W, Call: call}
+			res := c.runOn(sc2, g, emit)
+			c.count("dense/" + what + "/" + statusName(res.Status))
+			if res.Status == 2 {
+				c.fail("panic", "panic/"+call.Fn, fmt.Sprintf("%s (%s) with gas %d panicked: %s", name, what, g, res.PanicMsg), map[string]interface{}{"scenario": name, "call": describeCall(call), "gas": g})
+				return
+			}
+			if res.Status != 0 || res.Out == nil {
+				return
+			}
+			if out := gasOut(res.Out); out.Cmp(new(big.Int).SetUint64(g)) > 0 {
+				cs := *call
+				cs.Gas = g
+				c.fail("monitor", "gas-created/"+call.Fn, fmt.Sprintf("%s (%s): GasRemaining + sum(GasLimit) = %s > GasProvided = %d", name, what, out, g),
+					map[string]interface{}{"scenario": name, "call": describeCall(&cs), "pre": digestAccounts(snapshotShard(sc.W.shards[sc.Call.Shard])), "gas_schedule": sc.W.gasMap})
+			}
+		}
+		lo := uint64(0)
+		if charge > 48 {
+			lo = charge - 48
+		}
+		for g := lo; g <= charge+2; g++ {
+			check(sc.Call, g, g%16 == 0, "window")
+			c.note(fmt.Sprintf("dense/%s/gas=%d", name, g), true)
+		}
+		for _, locked := range []uint64{1, charge, charge + 5, 1 << 63} {
+			for _, g := range []uint64{charge, charge + 1, charge + 3, learnGas} {
+				call := *sc.Call
+				call.CallType = vmcommon.AsynchronousCall
+				call.Locked = locked
+				check(&call, g, locked == 1 || g == charge+1, "async-locked")
+				c.note(fmt.Sprintf("dense-locked/%s/gas=%d/locked=%d", name, g, locked), true)
+			}
+		}
+	}
+}
+
 // probeWrap: OUTSIDE the property's quantifier (costs are not 32-bit): with StorePerByte = 2^63 the product
 // bytes * StorePerByte wraps, the function under-charges, and still no gas is created.  Recorded in the evidence,
 // compared with the model (whose arithmetic wraps explicitly); never a failure unless gas is created.
@@ -478,6 +541,7 @@ func init() {
 		c.rep.Rule = "(1) random walks over 1-3 shard worlds (standard holdings) with gas drawn around each function's cost {0,cost-1,cost,cost+1,2^63,2^64-1,...}; " +
 			"(2) scenario sweep: every one of the 23 functions (origin side, destination side, forwarding paths, several argument sizes, the no-op SaveKeyValue of F7) " +
 			"re-run on the same pre-state with GasProvided in {0,charge/2,charge-1,charge,charge+1,2^63,2^64-1}, the charge learned from a run with 2^62 gas, under two schedules. " +
+			"(3) dense window: every scenario with EVERY gas value in [charge-48, charge+2] and, as an asynchronous call, with gas locked for the callback in {1, charge, charge+5, 2^63} (inequality only; a sample re-evaluated by the model). " +
 			"Monitors on the implementation: GasRemaining+sum(GasLimit)<=GasProvided; below the charge: error or nothing left; when something is left the amount spent equals the learned charge. " +
 			"Every executed call is re-evaluated in the Coq model (status + gas triple compared). distinct = distinct (world state, operation) resp. (scenario, gas)."
 		n, ops := 5, 220
@@ -490,6 +554,7 @@ func init() {
 		c.sweepGas(u, distinctGas(10, 3), sizes, "")
 		// 32-bit costs near the top of the range: products stay far below 2^64, sums exceed 2^32
 		c.sweepGas(u, maxCostGas(), sizes[:2], "maxcost/")
+		c.denseGas(u, distinctGas(10, 3), sizes[:2], "dense/")
 		c.probeWrap(u)
 	}
 }
